@@ -184,6 +184,9 @@ impl G {
         let s = self.spell(j);
         match d.kind {
             Kind::Enum => {
+                if self.wild && self.chance(1, 8) {
+                    return Some((format!("{}.{}", s, ["Missing", "M0.x", "prototype"][self.rng.below(3)]), Shape::Other));
+                }
                 if !d.members.is_empty() && self.chance(1, 3) {
                     let m = self.rng.pick(&d.members).clone();
                     Some((format!("{}.{}", s, m), Shape::Other))
@@ -221,6 +224,20 @@ impl G {
             "StringFormatExtends<string, \"x\">", "StringFormatExtends<Sf>", "Record<string>", "Record", "Array", "Array<>", "Map<string>", "Set", "Partial", "Pick<string, \"a\">", "Omit<{ a: 1 }, 1>", "keyof 1", "string[\"length\"]", "any[\"x\"]", "never[\"x\"]",
             "unknown[]", "import(\"./missing\").X", "typeof import(\"./missing\")", "import(\"./entry\")", "RegExp", "Error", "ArrayBuffer", "Readonly<string[]>", "[a: string, b?: number]", "[...string[], number]", "readonly string[][]",
         ];
+        if self.wild && self.chance(1, 24) {
+            // every message of diag.rs is a place where a location is computed: spellings that ask
+            // for the rarer ones (tools/diag_census.py says which the workload has never produced)
+            let rare: &[&str] = &[
+                "Pick<{ a: 1 }>", "Pick<{ a: 1 }, number>", "Pick<{ a: 1 }, \"a\", \"b\">", "Pick<string[], \"a\">", "Pick<{ a: 1 }, \"a\"[]>", "Omit<{ a: 1 }>", "Omit<{ a: 1 }, \"a\", \"b\">", "Omit<string, \"a\">", "Omit<{ a: 1 }, string>", "Omit<{ a: 1 }, \"a\"[]>",
+                "Partial<{ a: 1 }, 2>", "Partial<>", "Partial<string>", "Required<{ a?: 1 }, 2>", "Required<>", "Required<number>", "Readonly<>", "Readonly<1, 2>", "Exclude<string>", "Exclude<>", "Exclude<1, 2, 3>", "Map<string>", "Map<>", "Set<>", "Set<1, 2>",
+                "Record<number | boolean, string>", "Record<{ a: 1 }, string>", "Record<>", "Record<\"a\" | 1, string>", "Array<1, 2>", "[...string]", "[...number, string]", "[...{ a: 1 }]", "[string, ...number[], ...boolean[]]", "{ [k: string]: 1; [j: number]: 2 }", "{ [k: boolean]: 1 }", "{ [k: string] }", "{ a }", "{ a; b: 1 }",
+                "{ [K in string] }", "{ [K in keyof string as `x${K}`]: 1 }", "{ [K in 1 | 2]: string }", "{ [K in { a: 1 }]: string }", "{ -readonly [K in \"a\"]-?: 1 }", "StringFormatExtends<\"a\", \"b\">", "StringFormatExtends<Nf, \"x\">", "NumberFormatExtends<Sf, \"x\">", "NumberFormatExtends<number, \"x\">",
+                "NumberFormatExtends<Nf>", "NumberFormat<\"undeclared-number-format\">", "NumberFormat<string>", "typeof /re/", "typeof Sf", "Sf.x", "typeof Array", "typeof Date", "typeof parse", "typeof parse.buildParsers", "keyof typeof Missing", "(typeof Missing)[\"a\"]", "string[0]", "{ a: 1 }[\"b\"]", "{ a: 1 }[number]",
+                "[1, 2][5]", "[1, 2][\"x\"]", "`${{ a: 1 }}`", "`${`a${string}`}`", "`${string[]}`", "`${Sf}`", "`${Sf}-${number}`", "import(\"./entry\").Missing", "import(\"./entry\").Sf.x", "import(\"./entry\").parse", "typeof import(\"./entry\").Sf", "typeof import(\"./entry\").default",
+                "typeof import(\"./entry\").Missing.x", "Sf<string>", "Date<1>", "string<1>", "{ a: 1 } & string & 2", "keyof (string | number)", "keyof unknown", "keyof never", "keyof { [k: string]: 1 }", "unique symbol[]", "abstract new () => void", "asserts x is string", "x is string",
+            ];
+            return (self.rng.pick(rare).to_string(), Shape::Other);
+        }
         if self.wild && self.chance(1, 12) {
             if self.chance(1, 40) {
                 // spellings the parser rejects: the whole file is then unreadable
@@ -828,7 +845,51 @@ pub fn grammar_project(seed: u64) -> Project {
             }
         }
         if k == 0 {
-            src.push_str(&format!("parse.buildParsers<{{ {} }}>();\n", keys.join("; ")));
+            if g.wild && g.chance(1, 5) {
+                // declarations that exist to be rejected
+                let ns = if g.n_files >= 2 { "import * as WNs from \"./m1\";\nexport type WNsAsType = WNs;\nexport type WNsValue = typeof WNs;\nexport type WNsMissing = WNs.Missing;\nexport type WNsDeep = WNs.Missing.Deeper;\nimport WDefault from \"./m1\";\nexport type WDef = WDefault;\nimport { WNope } from \"./m1\";\nexport type WNo = WNope;\n" } else { "" };
+                let pool = [
+                    "export interface WExtArgs extends Array<string> { a: 1 }",
+                    "export interface WExtMissing extends Missing { a: 1 }",
+                    "export interface WExtQualified extends Sf.x { a: 1 }",
+                    "export interface WExtPrim extends Sf { a: 1 }",
+                    "export type WTypeAsValue = typeof Sf;\nexport type WIfaceAsValue = typeof WExtArgs;",
+                    "export enum WEnumRef { A = \"a\" }\nexport type WEnumMember = WEnumRef.B;\nexport type WEnumDeep = WEnumRef.A.x;\nexport type WEnumType = typeof WEnumRef;",
+                    "export const WRegex = /re/g;\nexport type WRegexT = typeof WRegex;\nexport const WSpread = [...1];\nexport type WSpreadT = typeof WSpread;\nexport const WSpreadObj = { ...1 };\nexport type WSpreadObjT = typeof WSpreadObj;",
+                    "export const WNumKey = { 1: \"a\", [\"c\"]: 2, 3n: 4 };\nexport type WNumKeyT = typeof WNumKey;\nexport const WPriv = { a: 1 };\nexport type WMember = typeof WPriv.missing;\nexport type WMember2 = typeof WPriv.a.b;",
+                    "export type WGenericNoArgs = Array;\nexport type WSelfArgs<T> = T<string>;\nexport type WRecGeneric<T> = WRecGeneric<WRecGeneric<T>>;\nexport type WUseRec = WRecGeneric<string>;",
+                    "export default Missing;",
+                    "declare function wfn(): void;\nexport type WFn = typeof wfn;\nclass WClass { a = 1 }\nexport type WCls = WClass;\nexport type WClsT = typeof WClass;",
+                ];
+                src.push_str(ns);
+                for _ in 0..g.rng.range(1, 3) {
+                    src.push_str(pool[g.rng.below(pool.len())]);
+                    src.push('\n');
+                }
+                for w in ["WNsAsType", "WNsValue", "WNsMissing", "WDef", "WNo", "WExtArgs", "WExtMissing", "WTypeAsValue", "WEnumMember", "WEnumType", "WRegexT", "WSpreadT", "WNumKeyT", "WMember", "WGenericNoArgs", "WUseRec", "WFn", "WCls"] {
+                    if src.contains(&format!(" {} ", w)) && g.chance(1, 2) {
+                        keys.push(format!("{}: {}", w, w));
+                    }
+                }
+            }
+            let call = if g.wild && g.chance(1, 8) {
+                // the call that asks for the parsers, spelled wrongly
+                let inner = keys.join("; ");
+                match g.rng.below(9) {
+                    0 => format!("parse.buildParsers<{{ {} }}>();\nparse.buildParsers<{{ Again: string }}>();\n", inner),
+                    1 => "parse.buildParsers();\n".to_string(),
+                    2 => "parse.buildParsers<string>();\n".to_string(),
+                    3 => format!("parse.buildParsers<{{ {} }}, string>();\n", inner),
+                    4 => "parse.buildParsers<{ [k: string]: string }>();\n".to_string(),
+                    5 => "parse.buildParsers<{ a(): void; b: string }>();\n".to_string(),
+                    6 => "parse.buildParsers<Sf>();\n".to_string(),
+                    7 => format!("parse.buildParsers<{{ {}; \"with-dash\": string; 1: number }}>();\n", inner),
+                    _ => format!("const parsers = parse.buildParsers<{{ {} }}>({{ extra: true }});\n", inner),
+                }
+            } else {
+                format!("parse.buildParsers<{{ {} }}>();\n", keys.join("; "))
+            };
+            src.push_str(&call);
         }
         files.insert(file_name(k), src);
     }
